@@ -371,6 +371,11 @@ type RefreshCase struct {
 	// Shutdown stops the worker; outcome 2 is a refresher that returns its
 	// context's error, if any.
 	CancelStartMS int `json:"cancel_start_ms,omitempty"`
+	// GridMS, when positive, replaces the scripted delays by a schedule that
+	// depends on its argument: UntilNext(now) is the time from now to the next
+	// multiple of GridMS (a cron-like schedule).  The worker must consult it
+	// with the time AFTER the refresh.
+	GridMS int `json:"grid_ms,omitempty"`
 }
 
 type ctxKey string
@@ -416,10 +421,14 @@ func checkRefresh(c RefreshCase) error {
 				return time.After(d)
 			},
 		}
-		sched := schedFunc(func() time.Duration {
+		grid := time.Duration(c.GridMS) * time.Millisecond
+		sched := schedFunc(func(now time.Time) time.Duration {
 			mu.Lock()
 			defer mu.Unlock()
 			d := ds[si%len(ds)]
+			if grid > 0 {
+				d = grid - now.Sub(t0)%grid
+			}
 			si++
 			untils = append(untils, d)
 			return d
@@ -498,6 +507,9 @@ func checkRefresh(c RefreshCase) error {
 		longest := time.Duration(0)
 		for k := 0; ; k++ {
 			d := ds[k%len(ds)]
+			if grid > 0 {
+				d = grid - tcur%grid
+			}
 			longest = max(longest, d)
 			tcur += d
 			if tcur > H {
@@ -640,6 +652,9 @@ func checkRefresh(c RefreshCase) error {
 	if c.OnShutdown {
 		vp.Class("refresh:RefreshOnShutdown")
 	}
+	if c.GridMS > 0 {
+		vp.Class("refresh:time-dependent-(grid)-schedule")
+	}
 	if c.CancelStartMS > 0 && c.CancelStartMS < c.ShutdownMS {
 		vp.Class("refresh:Start-context-cancelled-before-Shutdown")
 	}
@@ -657,9 +672,9 @@ type clockFunc struct {
 func (c clockFunc) Now() time.Time                         { return time.Now() }
 func (c clockFunc) After(d time.Duration) <-chan time.Time { return c.after(d) }
 
-type schedFunc func() time.Duration
+type schedFunc func(now time.Time) time.Duration
 
-func (s schedFunc) UntilNext(time.Time) time.Duration { return s() }
+func (s schedFunc) UntilNext(now time.Time) time.Duration { return s(now) }
 
 type consFunc func(parent context.Context) (context.Context, context.CancelFunc)
 
@@ -674,6 +689,7 @@ var refreshProp = vp.Register(vp.Prop[RefreshCase]{
 			Outcomes:      rapid.SliceOfN(rapid.IntRange(0, 2), 1, 5).Draw(t, "outcomes"),
 			ShutdownMS:    rapid.IntRange(0, 300).Draw(t, "shutdown"),
 			CancelStartMS: rapid.SampledFrom([]int{0, 0, 1, 10, 40, 100}).Draw(t, "cancelstart"),
+			GridMS:        rapid.SampledFrom([]int{0, 0, 0, 7, 20, 60}).Draw(t, "grid"),
 			OnShutdown:    rapid.Bool().Draw(t, "onshutdown"),
 			FinalErr:      rapid.Bool().Draw(t, "finalerr"),
 			FinalDurMS:    rapid.IntRange(0, 20).Draw(t, "finaldur"),
